@@ -725,7 +725,7 @@ def main():
     samples = samples[:5]
     slow = sorted(((round(r.get('seconds', -1), 1), r['rel'], r['cases']) for r in res), reverse=True)[:3]
     samples.append({'contract_evaluations': counts, 'slowest_jobs': slow, 'history_calls': ncases, 'files': len(files), 'jobs': len(jobs),
-                    'cases_skipped_for_time': skipped})
+                    'cases_not_run_out_of_time_or_after_repeated_hangs': skipped})
     print('@@JSON@@' + json.dumps({'evaluations': sum(counts.values()), 'distinct': distinct, 'failures': shown,
                                    'nfailures': nfail, 'samples': samples, 'seconds': time.time() - t0}))
 
